@@ -52,7 +52,7 @@ TUPLE_OPS = ["ctor", "ctorr", "copy", "move", "swap", "selfswap", "make", "maker
 TYPEQ = ["make_pair_unwraps_refwrap", "make_tuple_unwraps_refwrap", "tuple_cat_value_types", "tuple_cat_keeps_ref",
          "tuple_cat_keeps_nested", "tuple_copy_assignable", "tuple_move_assignable", "tuple_get_by_type",
          "tuple_structured_binding", "pair_ref_copy_assignable"]
-TYPE_FINDINGS = {"make_pair_unwraps_refwrap": "F-C20-make-pair-refwrap", "tuple_cat_keeps_ref": "F-C20-tuple-cat-decays",
+TYPE_FINDINGS = {"tuple_cat_keeps_ref": "F-C20-tuple-cat-decays",
                  "tuple_cat_keeps_nested": "F-C20-tuple-cat-decays", "tuple_copy_assignable": "F-C20-tuple-not-assignable",
                  "tuple_move_assignable": "F-C20-tuple-not-assignable", "tuple_get_by_type": "F-C20-tuple-get-by-type",
                  "tuple_structured_binding": "F-C20-tuple-structured-binding"}
